@@ -4,6 +4,7 @@ SPECIFICATION Spec
 CONSTANTS Family = "time"
           G = 3
           LTwo = FALSE
+          EmitTwoRequests = TRUE
 INVARIANTS C48_ResultSatisfiesProperty FunctionalFormAgrees
 PROPERTY Progress
 CHECK_DEADLOCK TRUE
